@@ -88,6 +88,10 @@ type Knobs struct {
 	// deleted, its pods are not garbage-collected yet): those pods are Running on a node the session does not know.
 	// Drawn after everything else; 0 = no extra draws
 	PNodeGone float64
+	// PArrival: probability (per entirely pending, claim-less workload) that the workload is not there at the start
+	// but submitted between two cycles (spec.ArriveAnno), as the youngest workload of the cluster. Open systems only.
+	// Drawn after everything else; 0 = no extra draws
+	PArrival float64
 }
 
 var allActions = "allocate, consolidation, reclaim, preempt, stalegangeviction"
@@ -157,6 +161,7 @@ func Profile(name string) Knobs {
 		k.PStaleGang = 0.12
 		k.PEarlyRecreate = 0.35
 		k.PNodeGone = 0.1
+		k.PArrival = 0.15
 		k.Fill, k.PTerminating = 0.5, 0.35
 		k.PFaults = 0
 		k.KindWeights = map[string]int{"cpu": 2, "whole": 6, "fraction": 2, "gpumem": 1}
@@ -177,6 +182,7 @@ func Profile(name string) Knobs {
 		k.KindWeights = map[string]int{"cpu": 1, "whole": 7, "fraction": 2}
 		k.NoMinRuntimeNearBoundary = true
 		k.PEarlyRecreate = 0.5
+		k.PArrival = 0.2
 	case "fairness": // C07
 		k.Fill, k.PTerminating = 0.85, 0.05
 		k.QueueChildrenMax = 4
@@ -185,12 +191,14 @@ func Profile(name string) Knobs {
 		k.PFaults = 0
 		k.KindWeights = map[string]int{"cpu": 1, "whole": 8, "fraction": 2}
 		k.WorkloadsMin, k.WorkloadsMax = 6, 20
+		k.PArrival = 0.2
 		k.PNodeSelector, k.PNodeAffinity, k.PAntiAffinity, k.PAffinity, k.PTopology, k.PTaint = 0.03, 0.02, 0, 0, 0, 0.05
 	case "limits": // C08
 		k.PLimit = 0.8
 		k.PFiniteCPUQuota = 0.5
 		k.PElastic = 0.5
 		k.Fill = 0.4
+		k.PArrival = 0.15
 		k.PExplicitPreemptibility = 0.5
 		k.KindWeights = map[string]int{"cpu": 3, "whole": 5, "fraction": 3, "gpumem": 2, "multifrac": 1}
 	case "order": // C16
@@ -334,7 +342,51 @@ func GenerateWith(k Knobs, profile string, seed int64, index int, tier string) *
 	LabelForNodePool(g.c)
 	g.genDRA() // DRA (dra.go): draws nothing when PDRA == 0
 	g.nodeGone()
+	MarkArrivals(g.c, g.r, g.k.PArrival)
 	return g.c
+}
+
+// MarkArrivals turns entirely pending workloads (no pod placed, binding or gated, no resource claims, not a clone) into
+// late arrivals with probability p each: submitted before cycle 2..Cycles, younger than everything else.
+func MarkArrivals(c *spec.Case, r *rand.Rand, p float64) {
+	if p <= 0 || c.Cycles < 2 || (c.World.Closed && !c.World.EarlyRecreate) {
+		return
+	}
+	binding := map[string]bool{}
+	for _, br := range c.Objects.BindRequests {
+		binding[br.Namespace+"/"+br.Spec.PodName] = true
+	}
+	now := time.Now().Truncate(time.Second)
+	for _, pg := range c.Objects.PodGroups {
+		if pg.Annotations[spec.CloneAnno] != "" || pg.Annotations[spec.ControlAnno] != "" || pg.Annotations["kai.scheduler/stale-podgroup-timestamp"] != "" {
+			continue
+		}
+		var pods []*v1.Pod
+		ok := true
+		for _, pod := range c.Objects.Pods {
+			if pod.Namespace != pg.Namespace || pod.Annotations["pod-group-name"] != pg.Name {
+				continue
+			}
+			pods = append(pods, pod)
+			if pod.Spec.NodeName != "" || pod.Status.Phase != v1.PodPending || pod.DeletionTimestamp != nil || binding[pod.Namespace+"/"+pod.Name] ||
+				len(pod.Spec.ResourceClaims) > 0 || len(pod.Spec.SchedulingGates) > 0 {
+				ok = false
+			}
+		}
+		if !ok || len(pods) == 0 || r.Float64() >= p {
+			continue
+		}
+		k := 2 + r.IntN(c.Cycles-1)
+		if pg.Annotations == nil {
+			pg.Annotations = map[string]string{}
+		}
+		pg.Annotations[spec.ArriveAnno] = strconv.Itoa(k)
+		created := metav1.NewTime(now.Add(time.Duration(k) * time.Second))
+		pg.CreationTimestamp = created
+		for _, pod := range pods {
+			pod.CreationTimestamp = created
+		}
+	}
 }
 
 // nodeGone removes the object of one node that runs generated pods (see Knobs.PNodeGone). Nodes with reservation pods,
